@@ -89,27 +89,7 @@ func runC06(s *kernel.Sim) {
 	ctx, cancel := context.WithCancel(context.Background())
 	contextmanager.Get().WithContext(ctx)
 
-	params := [][2]string{{"quota_id", "q"}, {"ttl_seconds", fmt.Sprint(ttlS)}, {"queue_size", fmt.Sprint(qSize)}}
-	if usePrio {
-		params = append(params, [2]string{"priority_group_by_header", "x-prio"},
-			[2]string{"priority_groups", "\n          p1: 1\n          p2: 2\n          p3: 3"})
-	}
-	files := map[string]string{
-		"quotas/quota.yaml": fmt.Sprintf("quotas:\n  - id: q\n    filter:\n      url: a.com/q\n    strategy:\n      fixed_window:\n        max: %d\n        interval: %d\n        interval_unit: second\n", qMax, qWin),
-		"flows/fq.yaml": flowDef{
-			Name: "fq", URL: "a.com/q",
-			Procs: []procDef{
-				{Key: "queue", Type: "Queue", Params: params},
-				{Key: "gen", Type: "GenerateResponse", Params: [][2]string{{"status", "429"}, {"body", "queued-out"}}},
-			},
-			Req: []connDef{
-				{FromStream: "start", ToProc: "queue"},
-				{FromProc: "queue", Cond: "allowed", ToStream: "end"},
-				{FromProc: "queue", Cond: "blocked", ToProc: "gen"},
-			},
-			Resp: []connDef{{FromProc: "gen", ToStream: "end"}},
-		}.YAML(),
-	}
+	files := c06Files(qMax, int64(qWin), qSize, ttlS, usePrio)
 	env, err := newEngine(s, files)
 	if err != nil {
 		s.HarnessErr = "engine rejected generated C06 configuration: " + err.Error()
@@ -618,5 +598,30 @@ func runC06(s *kernel.Sim) {
 	}
 	if !okAny {
 		s.Violate("R2", "grants>quota", "%s", detail)
+	}
+}
+
+// c06Files: one Queue-processor flow on a.com/q with a fixed-window quota.
+func c06Files(qMax, qWin, qSize int64, ttlS int, usePrio bool) map[string]string {
+	params := [][2]string{{"quota_id", "q"}, {"ttl_seconds", fmt.Sprint(ttlS)}, {"queue_size", fmt.Sprint(qSize)}}
+	if usePrio {
+		params = append(params, [2]string{"priority_group_by_header", "x-prio"},
+			[2]string{"priority_groups", "\n          p1: 1\n          p2: 2\n          p3: 3"})
+	}
+	return map[string]string{
+		"quotas/quota.yaml": fmt.Sprintf("quotas:\n  - id: q\n    filter:\n      url: a.com/q\n    strategy:\n      fixed_window:\n        max: %d\n        interval: %d\n        interval_unit: second\n", qMax, qWin),
+		"flows/fq.yaml": flowDef{
+			Name: "fq", URL: "a.com/q",
+			Procs: []procDef{
+				{Key: "queue", Type: "Queue", Params: params},
+				{Key: "gen", Type: "GenerateResponse", Params: [][2]string{{"status", "429"}, {"body", "queued-out"}}},
+			},
+			Req: []connDef{
+				{FromStream: "start", ToProc: "queue"},
+				{FromProc: "queue", Cond: "allowed", ToStream: "end"},
+				{FromProc: "queue", Cond: "blocked", ToProc: "gen"},
+			},
+			Resp: []connDef{{FromProc: "gen", ToStream: "end"}},
+		}.YAML(),
 	}
 }
